@@ -13,8 +13,8 @@ What is modelled (one Lean function per Python method, same order of effects):
   `sites_in.sample(n)`                              ↦ the list of picked row indices is an *input*
 
 The propagating-parameter dictionary of the code is a `Dict` (association list, last write first);
-the nested `Method_Specific_Params[param][method]` dictionary is flattened to the column name
-`method ++ param` that every level uses to look the value up in its file row.  Every key the levels
+the nested `Method_Specific_Params[param][method]` dictionary is a `Dict` keyed by (method, param)
+pairs, looked up in a file row under the column name `method ++ param`.  Every key the levels
 use comes from a `Tables` record; the instance for the current source tree is regenerated on every
 run (`Generated/Levels.lean`).
 -/
@@ -53,27 +53,33 @@ def Row.get? (r : Row) (k : String) : Option PV :=
   | some .nul => none
   | o => o
 
-/-- the propagating-parameter dictionary; `set` puts the new binding in front, `get` finds the first -/
-abbrev Dict := List (String × PV)
+/-- a propagating-parameter dictionary; `set` puts the new binding in front, `get` finds the first.
+Keys are column names for the plain parameters and (method, parameter suffix) pairs for
+`Method_Specific_Params[param][method]` -/
+abbrev Dict (κ : Type) := List (κ × PV)
 
-def Dict.get (d : Dict) (k : String) : PV := (d.lookup k).getD .nul
-def Dict.set (d : Dict) (k : String) (v : PV) : Dict := (k, v) :: d
-def Dict.keys (d : Dict) : List String := d.map (·.1)
+/-- key of a method-specific entry: (method, parameter suffix); its column in a file is `method ++ suffix` -/
+abbrev MKey := String × String
+def MKey.col (k : MKey) : String := k.1 ++ k.2
+
+def Dict.get {κ : Type} [DecidableEq κ] (d : Dict κ) (k : κ) : PV := (d.lookup k).getD .nul
+def Dict.set {κ : Type} (d : Dict κ) (k : κ) (v : PV) : Dict κ := (k, v) :: d
+def Dict.keys {κ : Type} (d : Dict κ) : List κ := d.map (·.1)
 
 /-- the value in effect after a chain of optional overrides, least granular first -/
 def resolve {V : Type} (levels : List (Option V)) (g : V) : V :=
   levels.foldl (fun acc o => o.getD acc) g
 
-/-- one level: for every key of the level's key list, a value given in the row replaces the
-inherited one -/
-def updFrom (keys : List String) (row : Row) (d : Dict) : Dict :=
-  keys.foldl (fun d k => match row.get? k with
+/-- one level: for every key of the level's key list, a value given in the row (in the column
+`col key`) replaces the inherited one -/
+def updFrom {κ : Type} (col : κ → String) (keys : List κ) (row : Row) (d : Dict κ) : Dict κ :=
+  keys.foldl (fun d k => match row.get? (col k) with
                           | some v => d.set k v
                           | none => d) d
 
-/-- column names `method ++ param` -/
-def methKeys (methods params : List String) : List String :=
-  methods.flatMap (fun m => params.map (fun p => m ++ p))
+/-- the (method, parameter) entries of a list of methods and parameter suffixes -/
+def methKeys (methods params : List String) : List MKey :=
+  methods.flatMap (fun m => params.map (fun p => (m, p)))
 
 /-! ### string helpers (on character lists, so that table obligations reduce by `decide`) -/
 
@@ -185,36 +191,37 @@ def Tables.sourceMeth (tb : Tables) : List String :=
 /-! ### the levels -/
 
 /-- `generate_propagating_params`: one entry per global key, value read from the parameter files -/
-def globalPlain (tb : Tables) (G : Dict) : Dict :=
+def globalPlain (tb : Tables) (G : Dict String) : Dict String :=
   tb.globalPlain.map (fun k => (k, G.get k))
 
-def globalMeth (tb : Tables) (methods : List String) (Gm : Dict) : Dict :=
+def globalMeth (tb : Tables) (methods : List String) (Gm : Dict MKey) : Dict MKey :=
   (methKeys methods tb.globalMeth).map (fun k => (k, Gm.get k))
-    ++ methods.map (fun m => (m ++ tb.siteDeploy, PV.tru))
+    ++ methods.map (fun m => ((m, tb.siteDeploy), PV.tru))
 
 /-- `update_propagating_params`: site type (when a site type file is given), then site -/
-def siteDicts (tb : Tables) (methods : List String) (G Gm : Dict) (typeRow : Option Row)
-    (siteRow : Row) : Dict × Dict :=
+def siteDicts (tb : Tables) (methods : List String) (G : Dict String) (Gm : Dict MKey)
+    (typeRow : Option Row) (siteRow : Row) : Dict String × Dict MKey :=
   let d0 := globalPlain tb G
   let m0 := globalMeth tb methods Gm
   let d1 := match typeRow with
-    | some t => updFrom tb.typePlain t d0
+    | some t => updFrom id tb.typePlain t d0
     | none => d0
   let m1 := match typeRow with
-    | some t => updFrom (methKeys methods tb.typeMeth) t m0
+    | some t => updFrom MKey.col (methKeys methods tb.typeMeth) t m0
     | none => m0
-  (updFrom tb.sitePlain siteRow d1, updFrom (methKeys methods tb.siteMeth) siteRow m1)
+  (updFrom id tb.sitePlain siteRow d1, updFrom MKey.col (methKeys methods tb.siteMeth) siteRow m1)
 
-/-- `if prop_params[param] is not None: prop_params[param] /= equip_count` -/
-def scaleKeys (keys : List String) (n : Nat) (d : Dict) : Dict :=
-  keys.foldl (fun d k => match d.get k with
-                          | .nul => d
-                          | v => d.set k (v.divNat n)) d
+/-- `if prop_params[param] is not None: prop_params[param] /= equip_count` for every listed entry:
+each entry is divided once (the lists of the code are duplicate-free: table obligation
+`scale_lists_nodup`; the methods of the nested dictionary are unique by construction) -/
+def scaleKeys {κ : Type} [DecidableEq κ] (keys : List κ) (n : Nat) (d : Dict κ) : Dict κ :=
+  d.map (fun e => if keys.contains e.1 then (e.1, e.2.divNat n) else e)
 
 /-- `Equipment_Group._update_prop_params`: method-specific entries first, then every key of the
 dictionary -/
-def groupDicts (tb : Tables) (methods : List String) (eqRow : Row) (d m : Dict) : Dict × Dict :=
-  (updFrom d.keys eqRow d, updFrom (methKeys methods tb.groupMeth) eqRow m)
+def groupDicts (tb : Tables) (methods : List String) (eqRow : Row) (d : Dict String)
+    (m : Dict MKey) : Dict String × Dict MKey :=
+  (updFrom id d.keys eqRow d, updFrom MKey.col (methKeys methods tb.groupMeth) eqRow m)
 
 /-- `_clean_propagating_parameters_from_equipment_info`: the cells that count components -/
 def cleanedCells (tb : Tables) (eqRow : Row) : Row :=
@@ -227,25 +234,25 @@ def cellCount : PV → Nat
 def totalComponents (tb : Tables) (eqRow : Row) : Nat :=
   ((cleanedCells tb eqRow).map (fun c => cellCount c.2)).sum
 
+/-- `if x is not None and x > 0: prop_params[key] = x / total_components` -/
+def divStep (key : String) (nC : Nat) (d : Dict String) : Dict String :=
+  match d.get key with
+  | .num q => if 0 < q then d.set key (.num (q / (nC : Rat))) else d
+  | _ => d
+
 /-- `_create_components`: both production rates are divided by the group's component count when
 they are positive (non-repairable first, as in the code) -/
-def compDict (tb : Tables) (nC : Nat) (d : Dict) : Dict :=
-  let d1 := match d.get tb.eqNonRepEpr with
-    | .num q => if 0 < q then d.set tb.eqNonRepEpr (.num (q / (nC : Rat))) else d
-    | _ => d
-  match d1.get tb.eqRepEpr with
-    | .num q => if 0 < q then d1.set tb.eqRepEpr (.num (q / (nC : Rat))) else d1
-    | _ => d1
+def compDict (tb : Tables) (nC : Nat) (d : Dict String) : Dict String :=
+  divStep tb.eqRepEpr nC (divStep tb.eqNonRepEpr nC d)
 
-/-- `Source._update_prop_params`, second loop: every key that contains the source's prefix yields
-the un-prefixed key, bound to the source row's value if it gives one, else to the inherited value -/
-def unprefixLoop (pre : String) (srcRow : Row) (d : Dict) : Dict :=
-  (d.keys.filter (fun k => hasInfix pre k)).foldl
-    (fun acc k =>
-      let sk := removeAll pre k
-      match srcRow.get? sk with
-      | some v => acc.set sk v
-      | none => acc.set sk (acc.get k)) d
+/-- one round of the second loop of `Source._update_prop_params`: the un-prefixed key is bound to
+the source row's value if it gives one, else to the inherited value of the prefixed key -/
+def unprefixStep (pre : String) (srcRow : Row) (acc : Dict String) (k : String) : Dict String :=
+  acc.set (removeAll pre k) ((srcRow.get? (removeAll pre k)).getD (acc.get k))
+
+/-- `Source._update_prop_params`, second loop: over every key (snapshot) that contains the prefix -/
+def unprefixLoop (pre : String) (srcRow : Row) (d : Dict String) : Dict String :=
+  (d.keys.filter (fun k => hasInfix pre k)).foldl (unprefixStep pre srcRow) d
 
 /-! ### the world -/
 
@@ -264,6 +271,9 @@ deriving DecidableEq, Inhabited
 
 structure CompEff where
   cid : String
+  /-- the production rates the component hands to its sources (repairable, non-repairable) -/
+  repRate : PV
+  nonRate : PV
   sources : List SourceEff
 deriving DecidableEq, Inhabited
 
@@ -331,23 +341,23 @@ deriving Inhabited
 
 /-- `Source.__init__` after `_update_prop_params`: the values the source ends up with -/
 def sourceEff (tb : Tables) (methods : List String) (sid : String) (rep : Bool) (srcRow : Row)
-    (d m : Dict) : SourceEff :=
+    (d : Dict String) (m : Dict MKey) : SourceEff :=
   let pre := if rep then tb.repPrefix else tb.nonRepPrefix
-  let m' := updFrom (methKeys methods tb.sourceMeth) srcRow m
+  let m' := updFrom MKey.col (methKeys methods tb.sourceMeth) srcRow m
   let d' := unprefixLoop pre srcRow d
   { sid := sid, rep := rep,
     ers := d'.get tb.srcErs, epr := d'.get tb.srcEpr, dur := d'.get tb.srcDur,
     multi := d'.get tb.srcMulti,
     rd := if rep then d'.get tb.srcRd else .nul,
     rc := if rep then d'.get tb.srcRc else .nul,
-    spatial := methods.map (fun me => m'.get (me ++ tb.srcSpatial)),
-    temporal := methods.map (fun me => m'.get (me ++ tb.srcTemporal)) }
+    spatial := methods.map (fun me => m'.get (me, tb.srcSpatial)),
+    temporal := methods.map (fun me => m'.get (me, tb.srcTemporal)) }
 
 /-- `Component._create_sources`: which sources a component of type `ty` gets, each with the row it
 is created from.  Placeholder sources share the component's dictionary, the first one's un-prefixed
 keys are therefore visible to the second (harmless: it overwrites them). -/
 def componentSources (tb : Tables) (methods : List String) (files : Files) (ty : String)
-    (d m : Dict) : List SourceEff :=
+    (d : Dict String) (m : Dict MKey) : List SourceEff :=
   let both := compType tb.placeholderBoth
   let repT := compType tb.placeholderRep
   let nonT := compType tb.placeholderNonRep
@@ -364,17 +374,17 @@ def componentSources (tb : Tables) (methods : List String) (files : Files) (ty :
 
 /-- `Equipment_Group.__init__` -/
 def buildGroup (tb : Tables) (methods : List String) (files : Files) (gid : String) (eqRow : Row)
-    (d m : Dict) : GroupEff :=
-  let (d1, m1) := groupDicts tb methods eqRow d m
-  let d2 := compDict tb (totalComponents tb eqRow) d1
+    (d : Dict String) (m : Dict MKey) : GroupEff :=
+  let dm := groupDicts tb methods eqRow d m
+  let d2 := compDict tb (totalComponents tb eqRow) dm.1
   { gid := gid,
-    times := methods.map (fun me => m1.get (me ++ tb.eqTimeKey)),
-    costs := methods.map (fun me => m1.get (me ++ tb.eqCostKey)),
+    times := methods.map (fun me => dm.2.get (me, tb.eqTimeKey)),
+    costs := methods.map (fun me => dm.2.get (me, tb.eqCostKey)),
     comps := (cleanedCells tb eqRow).flatMap (fun c =>
       (List.range (cellCount c.2)).map (fun i =>
-        let ty := compType c.1
-        { cid := ty ++ "_" ++ toString i,
-          sources := componentSources tb methods files ty d2 m1 })) }
+        { cid := compType c.1 ++ "_" ++ toString i,
+          repRate := d2.get tb.eqRepEpr, nonRate := d2.get tb.eqNonRepEpr,
+          sources := componentSources tb methods files (compType c.1) d2 dm.2 })) }
 
 /-- Python `round` of an exact value: nearest integer, ties to the even one -/
 def roundHalfEven (q : Rat) : Int :=
@@ -384,10 +394,11 @@ def roundHalfEven (q : Rat) : Int :=
   else if 1 / 2 < r then f + 1
   else if f % 2 = 0 then f else f + 1
 
-def sumPV (vs : List PV) : Option Rat :=
-  vs.foldl (fun acc v => match acc, v with
-                          | some a, .num q => some (a + q)
-                          | _, _ => none) (some 0)
+def sumStep : Option Rat → PV → Option Rat
+  | some a, .num q => some (a + q)
+  | _, _ => none
+
+def sumPV (vs : List PV) : Option Rat := vs.foldl sumStep (some 0)
 
 /-- `get_method_survey_time`: `round` of the sum over the groups -/
 def siteTime (groups : List GroupEff) (i : Nat) : Option Int :=
@@ -445,7 +456,7 @@ def findType (files : Files) (s : SiteRow) : Option TypeRow :=
   if files.hasTypes then files.types.find? (fun t => t.name = s.stype) else none
 
 /-- equipment groups of a site: (id, equipment row, scaling divisor) -/
-def siteGroups (tb : Tables) (files : Files) (spec : EquipSpec) (d : Dict) :
+def siteGroups (tb : Tables) (files : Files) (spec : EquipSpec) (d : Dict String) :
     List (String × Row × Nat) :=
   match spec with
   | .named raw =>
@@ -464,26 +475,26 @@ def siteGroups (tb : Tables) (files : Files) (spec : EquipSpec) (d : Dict) :
   | .bad => []
 
 /-- `Site.__init__` -/
-def buildSite (tb : Tables) (methods : List String) (G Gm : Dict) (files : Files) (s : SiteRow) :
-    SiteEff :=
+def buildSite (tb : Tables) (methods : List String) (G : Dict String) (Gm : Dict MKey)
+    (files : Files) (s : SiteRow) : SiteEff :=
   let t := findType files s
-  let (d, m) := siteDicts tb methods G Gm (t.map (·.cells)) s.cells
+  let dm := siteDicts tb methods G Gm (t.map (·.cells)) s.cells
   let spec := equipFor files s t
-  let groups := (siteGroups tb files spec d).map (fun g =>
-    buildGroup tb methods files g.1 g.2.1 (scaleKeys tb.scalePlain g.2.2 d)
-      (scaleKeys (methKeys methods tb.scaleMeth) g.2.2 m))
+  let groups := (siteGroups tb files spec dm.1).map (fun g =>
+    buildGroup tb methods files g.1 g.2.1 (scaleKeys tb.scalePlain g.2.2 dm.1)
+      (scaleKeys (methKeys methods tb.scaleMeth) g.2.2 dm.2))
   { sid := s.sid, stype := s.stype,
-    freq := methods.map (fun me => m.get (me ++ tb.freqKey)),
-    months := methods.map (fun me => m.get (me ++ tb.monthsKey)),
-    years := methods.map (fun me => m.get (me ++ tb.yearsKey)),
-    deploy := methods.map (fun me => m.get (me ++ tb.deployKey)),
+    freq := methods.map (fun me => dm.2.get (me, tb.freqKey)),
+    months := methods.map (fun me => dm.2.get (me, tb.monthsKey)),
+    years := methods.map (fun me => dm.2.get (me, tb.yearsKey)),
+    deploy := methods.map (fun me => dm.2.get (me, tb.deployKey)),
     time := (List.range methods.length).map (siteTime groups),
     cost := (List.range methods.length).map (siteCost groups),
     groups := groups }
 
 /-- `generate_infrastructure`: one site per picked row of the sites file, in the picked order -/
-def buildWorld (tb : Tables) (methods : List String) (G Gm : Dict) (files : Files)
-    (picks : List Nat) : List SiteEff :=
+def buildWorld (tb : Tables) (methods : List String) (G : Dict String) (Gm : Dict MKey)
+    (files : Files) (picks : List Nat) : List SiteEff :=
   picks.map (fun i => buildSite tb methods G Gm files (files.sites.getD i default))
 
 /-- a valid sample: `n` distinct rows of the file -/
@@ -494,10 +505,10 @@ def ValidPicks (nRows n : Nat) (picks : List Nat) : Prop :=
 
 def sourceRejected (s : SourceEff) : Bool := s.ers = .nul || s.epr = .nul
 
-def siteRejects (tb : Tables) (methods : List String) (G Gm : Dict) (files : Files) (s : SiteRow) :
-    List String :=
+def siteRejects (tb : Tables) (methods : List String) (G : Dict String) (Gm : Dict MKey)
+    (files : Files) (s : SiteRow) : List String :=
   let t := findType files s
-  let (d, _) := siteDicts tb methods G Gm (t.map (·.cells)) s.cells
+  let d := (siteDicts tb methods G Gm (t.map (·.cells)) s.cells).1
   let spec := equipFor files s t
   let e1 := if files.hasTypes && t.isNone then ["no-site-type"] else []
   let e2 := match spec with
@@ -513,8 +524,8 @@ def siteRejects (tb : Tables) (methods : List String) (G Gm : Dict) (files : Fil
     then ["source-without-rate"] else []
   e1 ++ e2 ++ e3
 
-def worldRejects (tb : Tables) (methods : List String) (G Gm : Dict) (files : Files)
-    (picks : List Nat) : List String :=
+def worldRejects (tb : Tables) (methods : List String) (G : Dict String) (Gm : Dict MKey)
+    (files : Files) (picks : List Nat) : List String :=
   picks.flatMap (fun i => siteRejects tb methods G Gm files (files.sites.getD i default))
 
 end LdarModel.Propagate
